@@ -483,6 +483,7 @@ inductive RepRun (skip : Inp → M → R (List Val)) (body : Inp → M → R Val
 /-- What a successful `repLoop` over `try_parse_unit` did. -/
 theorem repLoop_unitP_ok (skipf body : Inp → M → R Val) (dflt : Val) (k min : Nat) (max : Option Nat) :
     ∀ (budget idx : Nat) (i : Inp) (m : M) (acc : List Val) (i' : Inp) (m' : M) (out : List Val),
+      acc.length = idx →
       repLoop (repUnitP skipf body dflt k) min max budget idx i m acc = .ok i' m' out →
         ∃ l mL, RepRun (fun i m => skipLoop skipf k i m []) body (List.replicate k dflt) idx i m l i' mL ∧
           out = acc.reverse ++ l.map Iter.val ∧ min ≤ idx + l.length ∧
@@ -492,12 +493,13 @@ theorem repLoop_unitP_ok (skipf body : Inp → M → R Val) (dflt : Val) (k min 
               m' = { mf with stk := mL.stk })) := by
   intro budget
   induction budget with
-  | zero => intro idx i m acc i' m' out h; simp [repLoop] at h
+  | zero => intro idx i m acc i' m' out _ h; simp [repLoop] at h
   | succ b ih =>
-    intro idx i m acc i' m' out h
+    intro idx i m acc i' m' out hlen h
     unfold repLoop at h
     split at h
     · next hmax =>
+      rw [hmax, repDone_some] at h
       split at h
       · cases h
       · next hmin =>
@@ -512,13 +514,14 @@ theorem repLoop_unitP_ok (skipf body : Inp → M → R Val) (dflt : Val) (k min 
         split at h
         · cases h
         · next hmin =>
-          injection h with a1 a2 a3; subst a1 a2 a3
+          obtain ⟨a1, a2, a3⟩ := repDone_ok h; subst a1 a2 a3
           refine ⟨[], m, RepRun.nil _ _ _, by simp, by simp; omega, ?_,
             Or.inr ⟨by simpa using hmax, mf, by simpa using hu, rfl⟩⟩
           intro mx _ h2; simpa using h2
       | ok i1 m1 a =>
         rw [hu] at h; simp only [restoreOnNone] at h
-        obtain ⟨l, mL, hr, ho, hmin, hmx, hstop⟩ := ih _ _ _ _ _ _ _ h
+        obtain ⟨l, mL, hr, ho, hmin, hmx, hstop⟩ := ih _ _ _ _ _ _ _
+          (by simp only [List.length_cons, hlen]) h
         have e : idx + 1 + l.length = idx + (l.length + 1) := by omega
         rw [e] at hmin hstop
         rcases repUnitP_ok hu with ⟨h0, v, hb, ha⟩ | ⟨h0, i0, m0, sks, v, hsk, hb, ha⟩
@@ -893,10 +896,10 @@ theorem repLoop_min0_not_fail {α} (unit : Nat → Inp → M → R α) (max : Op
     intro idx i m acc mf h
     unfold repLoop at h
     split at h
-    · simp at h
+    · rw [repDone_min0] at h; cases h
     · split at h
       · cases h
-      · simp at h
+      · simp [repDone_min0] at h
       · exact ih _ _ _ _ _ h
 
 theorem parse_skipType_not_fail (g : NodeGrammar) (uni : Uni) (fuel : Nat) (inh : Bool) (n : Node)
@@ -1006,11 +1009,14 @@ theorem repLoop_noTrk {α} (unit : Nat → Inp → M → R α) (hu : ∀ idx, Tr
     intro idx i m1 m2 acc h
     unfold repLoop
     by_cases hmax : max = some idx
-    · simp only [hmax, if_true]; split <;> simp [h]
-    · simp only [hmax, if_false]
+    · simp only [hmax, if_true, repDone_eq_of_length]; split <;> simp [h]
+    · simp only [hmax, if_false, repDone_eq_of_length]
       rcases noTrk_eq_cases (hu idx i m1 m2 h) with ⟨hc, hp⟩ | ⟨m1', m2', hc, hp, he⟩ | ⟨i', m1', m2', a, hc, hp, he⟩
       · rw [hc, hp]; rfl
-      · rw [hc, hp]; simp only [restoreOnNone]; split <;> simp [h]
+      · rw [hc, hp]; simp only [restoreOnNone]
+        split
+        · simp [h]
+        · split <;> simp [h]
       · rw [hc, hp]; simp only [restoreOnNone]; exact ih _ _ _ _ _ he
 
 theorem arrayLoop_noTrk {α} (f : Inp → M → R α) (hf : TrkIndep f) :
@@ -1190,7 +1196,7 @@ theorem parse_noTrk (g : NodeGrammar) (uni : Uni) :
           · rw [hc, hp]; simp [he]
           · rw [hc, hp]; simp [he]
     | array k x =>
-      simp only [parse]
+      simp only [parse, arrayTryInto_arrayLoop]
       rcases noTrk_eq_cases (arrayLoop_noTrk _ (ih inh x) k i ⟨s, t1⟩ ⟨s, t2⟩ [] rfl)
         with ⟨hc, hp⟩ | ⟨m1', m2', hc, hp, he⟩ | ⟨i', m1', m2', a, hc, hp, he⟩
       · rw [hc, hp]
